@@ -53,7 +53,7 @@ def run_shard(ctx):
         rng = ctx.rng(case)
         small = case < n_small
         if case == n_small + n_large:
-            kids = tuple(S(rng.choice([f"{P}Leaf", f"{P}Name", f"{P}Leaf2"]), {"v": i}) for i in range(13))
+            kids = tuple(S(rng.choice([f"{P}Leaf", f"{P}Name", f"{P}Leaf2"]), {"v": i}) for i in range(270))
             lst = tuple(S(f"{P}Un", {}, {"child": S(f"{P}Leaf", {"v": j})}) for j in range(12))
             s = S(f"{P}Call", {}, {"args": kids, "kwargs": lst, "fn": S(f"{P}Lst", {}, {"elems": (S(f"{P}Leaf"), S(f"{P}Leaf2")), "opt": S(f"{P}Leaf", {"v": 5})})})
         else:
@@ -145,6 +145,7 @@ def run_shard(ctx):
             pruned = lambda p, _pr=pr: id(obj[id(p)]) in _pr  # noqa: E731
             keep = lambda p, _fl=fl: id(obj[id(p)]) in _fl  # noqa: E731
             for skip_self in (False, True):
+                positional = rng.random() < 0.3  # the documented parameter order, given by position
                 pre, post = ref("dfs", pruned, skip_self)
                 lvl, _ = ref("bfs", pruned, skip_self)
                 if skip_self and pr:
@@ -154,9 +155,9 @@ def run_shard(ctx):
                 if any(pruned(p) and not keep(p) and kids_of(p) for p in pre):
                     ctx.count("prune_not_filter_with_desc")
                 for kind, exp_vis, exp_order, call in (
-                    ("dfs", pre, pre, lambda: root.dfs(prune=f_prune, filter=f_filter, skip_self=skip_self)),
-                    ("dfs_bottom_up", pre, post, lambda: root.dfs(prune=f_prune, filter=f_filter, bottom_up=True, skip_self=skip_self)),
-                    ("bfs", lvl, lvl, lambda: root.bfs(prune=f_prune, filter=f_filter, skip_self=skip_self)),
+                    ("dfs", pre, pre, (lambda: root.dfs(f_prune, f_filter, False, skip_self)) if positional else (lambda: root.dfs(prune=f_prune, filter=f_filter, skip_self=skip_self))),
+                    ("dfs_bottom_up", pre, post, (lambda: root.dfs(f_prune, f_filter, True, skip_self)) if positional else (lambda: root.dfs(prune=f_prune, filter=f_filter, bottom_up=True, skip_self=skip_self))),
+                    ("bfs", lvl, lvl, (lambda: root.bfs(f_prune, f_filter, skip_self)) if positional else (lambda: root.bfs(prune=f_prune, filter=f_filter, skip_self=skip_self))),
                 ):
                     del flog[:], plog[:]
                     ctx.evaluations += 1
